@@ -99,8 +99,12 @@ fn to_int(polys: &[Vec<[f64; 2]>]) -> Option<Vec<Vec<P>>> {
 }
 
 /// a structural key for known findings: independent of absolute position
-pub fn judge(polys: &[Vec<[f64; 2]>], out: &TOut, rep: &Mutex<Report>, counts: &Counts) {
-    let input = || format!("tri {}", text(polys));
+pub fn judge(polys: &[Vec<[f64; 2]>], out: &TOut, rep: &Mutex<Report>, counts: &Counts) { judge_shown(polys, out, rep, counts, None) }
+
+/// `shown`: the text of the input the implementation actually ran on, when `polys`/`out` have been mapped back
+/// to the lattice by an exact axis-wise affine map
+pub fn judge_shown(polys: &[Vec<[f64; 2]>], out: &TOut, rep: &Mutex<Report>, counts: &Counts, shown: Option<&str>) {
+    let input = || match shown { Some(t) => format!("tri {}", t), None => format!("tri {}", text(polys)) };
     // ---- C15: totality and error classification
     if let TOut::Panic(m) = out {
         counts.panics.fetch_add(1, Ordering::Relaxed);
@@ -276,6 +280,32 @@ fn band_set(r: &mut Rng) -> Vec<Vec<[f64; 2]>> {
     (0..k).map(|i| { let n = r.range(3, 4) as usize; (0..n).map(|_| [r.range(0, 11) as f64, (3 * i) as f64 + r.range(0, 2) as f64]).collect() }).collect()
 }
 
+/// an exact axis-wise affine map v -> v*s + t with s a power of two and t an integer multiple of s: every
+/// coordinate stays exactly representable, so the mapped set is valid iff the lattice set is, and the
+/// implementation's answer maps back exactly. Covers aspect ratios up to 2^120 and offsets up to 2^45 steps.
+#[derive(Clone, Copy, Debug)]
+pub struct Affine { sx: f64, sy: f64, tx: f64, ty: f64 }
+impl Affine {
+    fn random(r: &mut Rng) -> Affine {
+        let e = |r: &mut Rng| -> i32 { match r.below(4) { 0 => 0, 1 => r.range(0, 60) as i32, 2 => -(r.range(0, 60) as i32), _ => *r.pick(&[-52, -50, -48, -45, 45, 48, 50, 52]) } };
+        let k = |r: &mut Rng| -> f64 { match r.below(4) { 0 | 1 => 0.0, 2 => (r.range(-1000000, 1000000)) as f64, _ => { let m = 2f64.powi(r.range(20, 45) as i32); if r.chance(0.5) { m } else { -m } } } };
+        let (sx, sy) = (2f64.powi(e(r)), 2f64.powi(e(r)));
+        Affine { sx, sy, tx: sx * k(r), ty: sy * k(r) }
+    }
+    fn fwd(&self, v: [f64; 2]) -> [f64; 2] { [v[0] * self.sx + self.tx, v[1] * self.sy + self.ty] }
+    fn back(&self, v: [f64; 2]) -> [f64; 2] { [(v[0] - self.tx) / self.sx, (v[1] - self.ty) / self.sy] }
+    fn exact_on(&self, polys: &[Vec<[f64; 2]>]) -> bool { polys.iter().flatten().all(|v| { let w = self.fwd(*v); w[0].is_finite() && w[1].is_finite() && self.back(w) == *v }) }
+    fn out_back(&self, out: &TOut) -> TOut {
+        match out {
+            TOut::Ok(ts) => TOut::Ok(ts.iter().map(|t| [self.back(t[0]), self.back(t[1]), self.back(t[2])]).collect()),
+            TOut::Overlap(k, p) => TOut::Overlap(k.clone(), self.back(*p)),
+            TOut::Duplicate(p) => TOut::Duplicate(self.back(*p)),
+            TOut::NoPointType(p) => TOut::NoPointType(self.back(*p)),
+            TOut::NonFinite => TOut::NonFinite, TOut::NoPolygon => TOut::NoPolygon, TOut::Panic(m) => TOut::Panic(m.clone()),
+        }
+    }
+}
+
 fn random_soup(r: &mut Rng) -> Vec<Vec<[f64; 2]>> {
     let np = 1 + r.below(3) as usize;
     let side = *r.pick(&[3i64, 4, 6, 10]);
@@ -301,6 +331,20 @@ pub fn run(o: &Opts) -> Report {
     let rep = Mutex::new(Report::new("tri"));
     rep.lock().unwrap().rule = "EXHAUSTIVE: every vertex sequence (repeats, collinear, self-intersecting included) of 3..N points on the 4x4 integer lattice as a single polygon (N=6: 17.9M sequences, both tiers); plus structured valid sets (L, U, plus, T, comb, spiral, star, zigzag, rectangles with holes, holes with islands to depth 4, side-by-side components) under all dihedral maps, integer scalings/shears/translations, reversals, start-vertex rotations and polygon permutations; random multi-polygon soups on lattices up to 10x10; NaN/inf/-0/subnormal/1e300 coordinates; empty and short inputs. Non-trivial = passes input validation (>= 3 distinct finite vertices per polygon); distinct by construction of the enumeration".into();
     let counts = Counts::default();
+    if let Some(t) = &o.replay {
+        // single input: `cavh tri --replay "[[[x,y],...],...]"` prints the implementation's answer and judges it
+        let polys = parse_text(t.trim_start_matches("tri ")).expect("replay text");
+        recording_panics();
+        let out = run_impl(&polys);
+        eprintln!("impl: {}", out.wire());
+        judge(&polys, &out, &rep, &counts);
+        let mut rep = rep.into_inner().unwrap();
+        rep.cases = 1;
+        let ans = run_driver_par(&o.drv, &[request(&polys)], 1);
+        eprintln!("model: {}", ans[0]);
+        if ans[0].strip_suffix(" mono=0").unwrap_or(&ans[0]) != out.wire() { rep.finding("model", &["C03", "C04", "C15", "C16"], "sweep-differs", format!("tri {}", t), format!("impl: {} | model: {}", out.wire(), ans[0])); }
+        return rep;
+    }
     let side = 4u64;
     let model_reqs: Mutex<Vec<(String, String, String)>> = Mutex::new(vec![]);   // (request, impl wire, text)
     let sample_mod = 1;
@@ -353,11 +397,56 @@ pub fn run(o: &Opts) -> Report {
     for _ in 0..(if o.thorough { 2000000 } else { 200000 }) { extra.push(("soup", random_soup(&mut rng))); }
     for _ in 0..(if o.thorough { 400000 } else { 60000 }) { extra.push(("star", star_set(&mut rng))); }
     for _ in 0..(if o.thorough { 400000 } else { 60000 }) { extra.push(("bands", band_set(&mut rng))); }
+    // zeros written as -0.0 half the time (the same points: -0.0 == 0.0), on sets that touch the axes
+    {
+        let bases = shapes();
+        for i in 0..(if o.thorough { 300000 } else { 40000 }) {
+            let mut b: Vec<Vec<[f64; 2]>> = if i % 3 == 0 { bases[rng.below(bases.len() as u64) as usize].1.clone() } else { random_soup(&mut rng) };
+            let (dx, dy) = (rng.range(0, 3) as f64, rng.range(0, 3) as f64);
+            for v in b.iter_mut().flatten() { v[0] -= dx; v[1] -= dy; for c in v.iter_mut() { if *c == 0.0 && rng.chance(0.5) { *c = -0.0; } } }
+            extra.push(("negzero", b));
+        }
+    }
     // the six-polygon witness of the > 11 active edges defect (repaired: see known_findings.jsonl)
     extra.push(("corpus", vec![vec![[1.0, 10.0], [5.0, 10.0], [3.0, 9.0], [8.0, 11.0]], vec![[3.0, 6.0], [1.0, 8.0], [5.0, 7.0]], vec![[9.0, 2.0], [11.0, 0.0], [5.0, 2.0], [8.0, 2.0]],
         vec![[1.0, 17.0], [2.0, 16.0], [9.0, 16.0]], vec![[11.0, 14.0], [10.0, 12.0], [10.0, 13.0], [6.0, 13.0]], vec![[5.0, 5.0], [0.0, 3.0], [9.0, 4.0], [7.0, 5.0]]]));
     for _ in 0..(if o.thorough { 20000 } else { 3000 }) { extra.push(("special", special_coords(&mut rng))); }
     for _ in 0..(if o.thorough { 400000 } else { 60000 }) { extra.push(("extreme", extreme_lattice(&mut rng))); }
+    // affine images (anisotropic power-of-two scalings, far translations) of valid-by-construction and random sets
+    {
+        let bases = shapes();
+        let n_aff = if o.thorough { 600000 } else { 80000 };
+        let mut done = 0u64;
+        for i in 0..n_aff {
+            let base: Vec<Vec<[f64; 2]>> = match i % 4 { 0 => bases[rng.below(bases.len() as u64) as usize].1.clone(), 1 => star_set(&mut rng), 2 => band_set(&mut rng), _ => random_soup(&mut rng) };
+            let a = Affine::random(&mut rng);
+            if !a.exact_on(&base) { continue; }
+            let mapped: Vec<Vec<[f64; 2]>> = base.iter().map(|p| p.iter().map(|v| a.fwd(*v)).collect()).collect();
+            let out = run_impl(&mapped);
+            done += 1;
+            {
+                let mut r = rep.lock().unwrap();
+                r.cases += 1;
+                r.count("gen:affine");
+                r.count(&format!("impl:{}", out.class()));
+            }
+            judge_shown(&base, &a.out_back(&out), &rep, &counts, Some(&text(&mapped)));
+            if rng.chance(0.05) { model_reqs.lock().unwrap().push((request(&mapped), out.wire(), text(&mapped))); }
+        }
+        rep.lock().unwrap().count_n("gen:affine-exact", done);
+        // KNOWN FINDINGS (known_findings.jsonl): coordinate differences that overflow binary64 make gradients
+        // infinite; the square loses a triangle (C03) and the triangle is rejected (C04). The random affine maps
+        // above keep every coordinate difference finite.
+        let f = |v: &[(i64, i64)]| -> Vec<[f64; 2]> { v.iter().map(|p| [p.0 as f64, p.1 as f64]).collect() };
+        let big = Affine { sx: 2f64.powi(1023), sy: 2f64.powi(1023), tx: 0.0, ty: 0.0 };
+        let tall = Affine { sx: 1.0, sy: 2f64.powi(1023), tx: 0.0, ty: 0.0 };
+        for (a, base) in [(big, vec![f(&[(-1, -1), (1, -1), (1, 1), (-1, 1)])]), (tall, vec![f(&[(0, -1), (1, 1), (2, -1)])])] {
+            let mapped: Vec<Vec<[f64; 2]>> = base.iter().map(|p| p.iter().map(|v| a.fwd(*v)).collect()).collect();
+            let out = run_impl(&mapped);
+            { let mut r = rep.lock().unwrap(); r.cases += 1; r.count("gen:overflow-corpus"); }
+            judge_shown(&base, &a.out_back(&out), &rep, &counts, Some(&text(&mapped)));
+        }
+    }
     extra.push(("empty", vec![]));
     extra.push(("empty-poly", vec![vec![]]));
     for (name, polys) in &extra {
@@ -367,14 +456,14 @@ pub fn run(o: &Opts) -> Report {
             r.cases += 1;
             r.count(&format!("gen:{}", name));
             r.count(&format!("impl:{}", out.class()));
-            if *name != "soup" && *name != "special" && *name != "extreme" && *name != "star" && *name != "bands" && r.samples.len() < 6 { r.sample(format!("{} {} -> {}", name, text(polys), out.class())); }
+            if *name != "soup" && *name != "special" && *name != "extreme" && *name != "star" && *name != "bands" && *name != "negzero" && r.samples.len() < 6 { r.sample(format!("{} {} -> {}", name, text(polys), out.class())); }
         }
         judge(polys, &out, &rep, &counts);
         // coordinates whose differences overflow produce NaN ordinates/gradients; `f64::total_cmp` then
         // depends on the SIGN of the NaN, which Lean's `Float` cannot observe: such inputs are judged by
         // the implementation-side oracle (no panic, error classification) only
         let overflowing = polys.iter().flatten().any(|v| v[0].abs() > 8e307 || v[1].abs() > 8e307);
-        if !overflowing && ((*name != "soup" && *name != "extreme" && *name != "star" && *name != "bands") || rng.chance(if *name == "bands" { 0.2 } else { 0.05 })) { model_reqs.lock().unwrap().push((request(polys), out.wire(), text(polys))); }
+        if !overflowing && ((*name != "soup" && *name != "extreme" && *name != "star" && *name != "bands" && *name != "negzero") || rng.chance(if *name == "bands" { 0.2 } else { 0.05 })) { model_reqs.lock().unwrap().push((request(polys), out.wire(), text(polys))); }
     }
     let mut rep = rep.into_inner().unwrap();
     rep.nontrivial = counts.valid.load(Ordering::Relaxed) + counts.crossing.load(Ordering::Relaxed);
